@@ -98,6 +98,17 @@ func (env *SpecEnv) eval(e Expr) *Val {
 		if x.Op == "!" {
 			return mkBool(tNot(env.evalBool(x.X)))
 		}
+		if x.Op == "*" {
+			p := env.eval(x.X)
+			if p.K != KInt || p.T == nil {
+				return env.fail("dereference of non-pointer")
+			}
+			pt, ok := p.T.Underlying().(*types.Pointer)
+			if !ok {
+				return env.fail("dereference of non-pointer " + p.T.String())
+			}
+			return env.st.loadLoc(env.st.objLoc(p.S, pt.Elem()))
+		}
 		return mkInt(tSub("0", env.evalInt(x.X)), nil)
 	case *EBinary:
 		switch x.Op {
@@ -292,8 +303,10 @@ func (env *SpecEnv) ident(name string) *Val {
 			return v
 		}
 	}
-	if c, ok := specConvTypes[name]; ok {
-		_ = c
+	if env.useLocals && env.at.b != nil {
+		// a local that is not in scope at this program point: unconstrained (an obligation must then hold for every value)
+		fx.note("contract mentions local '" + name + "' at a point where it is not in scope: treated as arbitrary")
+		return mkInt(fx.fresh("unscoped_"+name, "Int"), nil)
 	}
 	return env.fail("unknown identifier " + name)
 }
@@ -612,6 +625,9 @@ func (env *SpecEnv) call(x *ECall) *Val {
 		}
 		et := a.T.Underlying().(*types.Slice).Elem()
 		return st.loadLoc(&Loc{Mem: true, Ref: a.B, Idx: env.evalInt(x.Args[1]), Root: typeKey(et), T: et, RootT: et})
+	case "bytesAt":
+		// bytesAt(base, off, len): the byte slice with that header
+		return &Val{K: KSlice, T: types.NewSlice(types.Typ[types.Uint8]), B: env.evalInt(x.Args[0]), O: env.evalInt(x.Args[1]), L: env.evalInt(x.Args[2]), C: env.evalInt(x.Args[2])}
 	case "extendLeft":
 		// extendLeft(s, n): the slice that starts n elements before s in the same backing array (undoes s = s[n:])
 		a := arg(0)
@@ -803,6 +819,19 @@ func (env *SpecEnv) call(x *ECall) *Val {
 		if v.K != KInt {
 			return env.fail("conversion of non-integer")
 		}
+		if v.T != nil && isIntegerT(v.T) {
+			flo, fhi, _ := intRange(v.T)
+			tlo, thi, _ := intRange(t)
+			if flo.Cmp(tlo) >= 0 && fhi.Cmp(thi) <= 0 {
+				return mkInt(v.S, t)
+			}
+		}
+		if x.Fun == "int" || x.Fun == "int64" {
+			// spec integers are mathematical: int(x) of an untyped spec value is the identity
+			if v.T == nil || !isIntegerT(v.T) {
+				return mkInt(v.S, nil)
+			}
+		}
 		return mkInt(wrapTo(v.S, t), t)
 	}
 	if sf, ok := fx.eng.CS.Specs[x.Fun]; ok {
@@ -866,6 +895,20 @@ func (env *SpecEnv) targets(e Expr, src string) []*assignTarget {
 		l := env.selLoc(x.X, x.Name)
 		if l != nil {
 			return []*assignTarget{{kind: "field", loc: l, key: leafKey(l, ""), ref: l.Ref, src: src}}
+		}
+	case *EUnary:
+		if x.Op == "*" {
+			p := env.eval(x.X)
+			if p.K == KInt && p.T != nil {
+				if pt, ok := p.T.Underlying().(*types.Pointer); ok {
+					l := env.st.objLoc(p.S, pt.Elem())
+					kind := "obj"
+					if l.Mem {
+						kind = "cell"
+					}
+					return []*assignTarget{{kind: kind, loc: l, key: leafKey(l, ""), ref: p.S, src: src}}
+				}
+			}
 		}
 	case *EIndex:
 		if id, ok := x.X.(*EIdent); ok {
